@@ -408,10 +408,12 @@ def _stencil_path(prog: Program, res: Result, env0, fi, q, eng, f):
     loop = next((n_ for n_ in ast.walk(fi.node) if isinstance(n_, ast.While) and any(dg[0] is x for x in ast.walk(n_))), None)
     if loop is None:
         raise AnalysisError(f"{q}: the time-stepping loop around the solve was not found")
-    aug = [s_ for s_ in loop.body if isinstance(s_, ast.AugAssign) and isinstance(s_.op, ast.Add) and isinstance(s_.target, ast.Name) and isinstance(s_.value, ast.Name)]
+    from ..model import as_increment
+
+    aug = [as_increment(s_) for s_ in loop.body if as_increment(s_) is not None and isinstance(as_increment(s_)[1], ast.Name)]
     if len(aug) != 1:
         raise AnalysisError(f"{q}: the loop does not advance exactly one time variable by a step variable")
-    TIME, STEP = aug[0].target.id, aug[0].value.id
+    TIME, STEP = aug[0][0], aug[0][1].id
     dt = f.env.get(STEP)
     if not isinstance(dt, Rat):
         raise AnalysisError(f"{q}: time step not understood")
